@@ -89,6 +89,20 @@ def clipf(lo, hi):
 
 # group keys / distinct keys: unequal values with EQUAL hashes in CPython (-1/-2, 0/2**61-1) plus a tuple and a float variant
 SHARED_NAN = float('nan')
+
+
+class _Tok(object):
+    def __init__(self, n):
+        self.n = n
+
+    def __repr__(self):
+        return 'Tok(%d)' % self.n
+
+    def __deepcopy__(self, memo):
+        return self
+
+
+SPLIT_TOKENS = [_Tok(0), _Tok(1), _Tok(2)]
 GKEYS = [-1, -2, ('a', -1), ('a', -2), 2 ** 61 - 1, 0, 'x']      # pairwise unequal; (-1,-2), the two tuples and (2**61-1, 0) hash alike
 
 
@@ -117,6 +131,8 @@ def twice(make):
 def splitf(kind, d):
     if kind == 'nonemod':       # a criterion that is None for some items (a missing field)
         return lambda x: None if x % d == 0 else x % d
+    if kind == 'tokdiv':        # runs of items share ONE identity-compared criterion object (a device / session object)
+        return lambda x: SPLIT_TOKENS[(x // d) % 3]
     if kind == 'nanmod':        # ONE shared NaN object as the criterion of many items: it differs from itself, every item is a run
         return lambda x: SHARED_NAN if x % d == 0 else x % d
     if kind == 'gkey':          # consecutive ints map to unequal criteria with EQUAL hashes (-1 / -2, ('a',-1) / ('a',-2), 0 / 2**61-1)
@@ -267,6 +283,10 @@ SCALAR = INTLIKE + ('optint', 'float', 'pair')
 fold('scan_list', '*', lambda t, n: listof(t) if (n[2] or t in SCALAR) else None,
      lambda n, e: rs.ops.scan(acc_append if n[2] else acc_concat, [] if n[1] == 'value' else list, reduce=n[2]),
      lambda n, c: M.Scan(acc_append if n[2] else acc_concat, list, n[2]), reduce_pos=2)
+# the streaming MUTATING variant (one live list re-emitted for every item): never drawn by the generators; C01 appends it,
+# followed by to_list, to pipelines without take / first / tee, where both execution modes emit at the same moments
+fold('scan_list_mut', '*', lambda t, n: listof(t), lambda n, e: rs.ops.scan(acc_append, list, reduce=False),
+     lambda n, c: M.Scan(acc_append, list, False), reduce_pos=None)
 fold('scan_term', INTLIKE, 'int', lambda n, e: rs.ops.scan(acc_sum, 0, reduce=n[1], terminator=term_101),
      lambda n, c: M.Scan(acc_sum, lambda: 0, n[1], term_101), reduce_pos=None, ct=True)
 fold('scan_abs', INTLIKE, 'mono', lambda n, e: rs.ops.scan(acc_abs, 0), lambda n, c: M.Scan(acc_abs, lambda: 0),
@@ -353,7 +373,8 @@ def _distinct_accept(tin, node):
 
 simple('distinct', '*', _distinct_accept, lambda n, e: rs.ops.distinct(f_gkey(n[1]) if n[1] else None),
        lambda n, c: M.Distinct(f_gkey(n[1]) if n[1] else None), stateful=True, dual=False)
-simple('lag', '*', lambda t, n: 'pair' if isint(t) else 'any', lambda n, e: rs.data.lag(n[1]), lambda n, c: M.Lag(n[1]),
+simple('lag', '*', lambda t, n: 'pair' if isint(t) else 'any', lambda n, e: rs.data.lag(n[1], data_type={'float': float, 'int': int}[n[2]]) if len(n) > 2 and n[2] else rs.data.lag(n[1]),
+       lambda n, c: M.Lag(n[1]),
        stateful=True, dual=False)
 
 
